@@ -181,6 +181,24 @@ pub async fn one_tree<TC: Configuration>(cx: &mut Ctx, r: &mut Rng, batches: Vec
                     cands.push((format!("child{}-label-shortened", i), p4));
                 }
             }
+            // child label / claimed prefix carrying a stray bit beyond its length, inside its last byte
+            for i in 0..2 {
+                let cl = base.longest_prefix_children[i].label;
+                if cl.label_len % 8 != 0 && cl.label_len < 256 && cl != TC::empty_label() {
+                    let mut p4 = base.clone();
+                    let bit = cl.label_len as usize + r.below(8 - (cl.label_len as u64 % 8)) as usize;
+                    p4.longest_prefix_children[i].label.label_val[bit / 8] |= 0x80u8 >> (bit % 8);
+                    cands.push((format!("child{}-label-stray-bit", i), p4));
+                }
+            }
+            if a.label_len % 8 != 0 {
+                let mut p4 = base.clone();
+                let bit = a.label_len as usize + r.below(8 - (a.label_len as u64 % 8)) as usize;
+                p4.longest_prefix.label_val[bit / 8] |= 0x80u8 >> (bit % 8);
+                cands.push(("longest-prefix-stray-bit".into(), p4.clone()));
+                p4.longest_prefix_membership_proof.label = p4.longest_prefix;
+                cands.push(("longest-prefix-and-anchor-stray-bit".into(), p4));
+            }
             // altered sibling value / direction / hash in the anchor's membership proof
             if !amp.sibling_proofs.is_empty() {
                 let k = r.below(amp.sibling_proofs.len() as u64) as usize;
